@@ -53,6 +53,7 @@ type Event struct {
 	Em    []Em   `json:"em"`
 	Trace int    `json:"trace"`
 	Note  string `json:"note,omitempty"`
+	Res   string `json:"res"` // verdict of the independent oracle on the result once the party is done: none | correct | wrong
 }
 
 // snapshotter is implemented by handlers built with the verif tag.
@@ -73,8 +74,9 @@ type Engine struct {
 	ShapeM  map[int]bool
 	// stored[inst][r][b][sender] = variant label of the stored message
 	stored map[party.ID]map[int]map[bool]map[party.ID]string
-	// hashTab: real broadcast hash (hex) -> abstract vh
-	hashTab map[string]VH
+	// hashTab: real broadcast hash (hex) -> abstract vh; hashOrigin remembers which instance / round taught it
+	hashTab    map[string]VH
+	hashOrigin map[string]string
 	// varOf: label of a concrete message pointer
 	varOf map[*protocol.Message]string
 	// viewOf: abstract view (vh per round 2..rd-1) the message content was computed from
@@ -86,6 +88,10 @@ type Engine struct {
 	// OnEmit lets a driver intercept messages an instance emitted (return false to drop the default fan-out)
 	OnEmit func(inst party.ID, m *protocol.Message) bool
 	Log    bool
+	// LabelEmit, when set, labels every message an instance emits (before any bookkeeping)
+	LabelEmit func(inst party.ID, m *protocol.Message) string
+	// Judge, when set, classifies the result of a party that just finished ("correct" / "wrong")
+	Judge func(inst party.ID, result interface{}) string
 	// Alias maps real party ids to the names used in traces (identity when nil)
 	Alias map[party.ID]string
 }
@@ -109,7 +115,7 @@ func NewEngine(ids []party.ID, honest []party.ID, R int) *Engine {
 	e := &Engine{IDs: ids, Honest: map[party.ID]bool{}, Parties: map[party.ID]*Party{}, Net: &Net{IDs: ids}, R: R,
 		ShapeB: map[int]bool{}, ShapeM: map[int]bool{},
 		stored:  map[party.ID]map[int]map[bool]map[party.ID]string{},
-		hashTab: map[string]VH{}, varOf: map[*protocol.Message]string{}, viewOf: map[*protocol.Message][]VH{}, Log: true}
+		hashTab: map[string]VH{}, hashOrigin: map[string]string{}, varOf: map[*protocol.Message]string{}, viewOf: map[*protocol.Message][]VH{}, Log: true}
 	for _, h := range honest {
 		e.Honest[h] = true
 	}
@@ -189,6 +195,32 @@ func (e *Engine) learnHashes(inst party.ID, p *Party) {
 			continue
 		}
 		e.hashTab[key] = abs
+		e.hashOrigin[key] = fmt.Sprintf("%s/%d", inst, r)
+	}
+}
+
+// Relabel changes the variant label of a message an instance emitted earlier (used when a driver learns only
+// after the call that this emission is the point where two universes of an equivocator diverge).
+func (e *Engine) Relabel(inst party.ID, m *protocol.Message, label string) {
+	e.varOf[m] = label
+	if m.Broadcast {
+		r := int(m.RoundNumber)
+		e.slot(inst, r, true)[m.From] = label
+		for k, o := range e.hashOrigin {
+			if o == fmt.Sprintf("%s/%d", inst, r) {
+				delete(e.hashTab, k)
+				delete(e.hashOrigin, k)
+			}
+		}
+		if p := e.Parties[inst]; p != nil {
+			e.learnHashes(inst, p)
+		}
+	}
+	// views of later messages of this instance computed from the old label
+	for mm, view := range e.viewOf {
+		if e.Parties[inst] != nil && mm.From == m.From && int(mm.RoundNumber) > int(m.RoundNumber) {
+			_ = view
+		}
 	}
 }
 
@@ -242,10 +274,10 @@ func (e *Engine) post(inst party.ID, p *Party) Post {
 func ClassifyErr(err error, self party.ID, culprits []party.ID) string {
 	t := err.Error()
 	switch {
+	case strings.Contains(t, "aborted by other party"): // first: the notice quotes the peer's own error text
+		return "notified"
 	case strings.Contains(t, "broadcast verification failed"):
 		return "echo"
-	case strings.Contains(t, "aborted by other party"):
-		return "notified"
 	case strings.Contains(t, "aborted by user"):
 		return "stopped"
 	}
@@ -260,6 +292,14 @@ func ClassifyErr(err error, self party.ID, culprits []party.ID) string {
 		return "detected"
 	}
 	return "proto"
+}
+
+func (e *Engine) res(inst party.ID, p *Party) string {
+	st := p.Status()
+	if st.St != "done" || e.Judge == nil {
+		return "none"
+	}
+	return e.Judge(inst, st.Result)
 }
 
 func (e *Engine) emitted(inst party.ID, msgs []*protocol.Message) []Em {
@@ -288,6 +328,13 @@ func (e *Engine) emitted(inst party.ID, msgs []*protocol.Message) []Em {
 // views of emitted messages are recorded, hashes learnt, messages fanned out.
 func (e *Engine) afterCall(inst party.ID, p *Party, oc Outcome) {
 	self := p.ID
+	if e.LabelEmit != nil {
+		for _, m := range oc.Emitted {
+			if l := e.LabelEmit(inst, m); l != "" {
+				e.varOf[m] = l
+			}
+		}
+	}
 	// own broadcasts are stored in the handler's own queue
 	for _, m := range oc.Emitted {
 		if m.RoundNumber == 0 {
@@ -353,7 +400,7 @@ func (e *Engine) AddParty(inst party.ID, p *Party) {
 	oc := Outcome{Emitted: p.Drain()}
 	e.afterCall(inst, p, oc)
 	if e.Honest[inst] && e.Log {
-		e.Events = append(e.Events, Event{Ev: "Start", I: e.Nm(inst), Post: e.post(inst, p), Em: e.emitted(inst, oc.Emitted), Trace: e.Trace})
+		e.Events = append(e.Events, Event{Ev: "Start", I: e.Nm(inst), Post: e.post(inst, p), Em: e.emitted(inst, oc.Emitted), Trace: e.Trace, Res: e.res(inst, p)})
 	}
 }
 
@@ -379,7 +426,7 @@ func (e *Engine) Deliver(inst party.ID, m *protocol.Message, cls string) Outcome
 	if probe.Panic != "" || probe.Hang {
 		e.afterCall(inst, p, probe)
 		if e.Honest[inst] && e.Log {
-			e.Events = append(e.Events, Event{Ev: "Crash", I: e.Nm(inst), M: e.Abstract(m, cls), Trace: e.Trace, Note: firstLine(probe.Panic)})
+			e.Events = append(e.Events, Event{Ev: "Crash", I: e.Nm(inst), M: e.Abstract(m, cls), Trace: e.Trace, Note: firstLine(probe.Panic), Res: "none", Em: []Em{}, Post: Post{Culp: []string{}}})
 		}
 		return probe
 	}
@@ -388,7 +435,7 @@ func (e *Engine) Deliver(inst party.ID, m *protocol.Message, cls string) Outcome
 	if oc.Panic != "" || oc.Hang {
 		e.afterCall(inst, p, oc)
 		if e.Honest[inst] && e.Log {
-			e.Events = append(e.Events, Event{Ev: "Crash", I: e.Nm(inst), M: am, Trace: e.Trace, Note: firstLine(oc.Panic)})
+			e.Events = append(e.Events, Event{Ev: "Crash", I: e.Nm(inst), M: am, Trace: e.Trace, Note: firstLine(oc.Panic), Res: "none", Em: []Em{}, Post: Post{Culp: []string{}}})
 		}
 		return oc
 	}
@@ -414,7 +461,7 @@ func (e *Engine) Deliver(inst party.ID, m *protocol.Message, cls string) Outcome
 	e.afterCall(inst, p, oc)
 	if e.Honest[inst] && e.Log {
 		e.Events = append(e.Events, Event{Ev: "Accept", I: e.Nm(inst), M: am, Can: can, Ign: ign,
-			Post: e.post(inst, p), Em: e.emitted(inst, oc.Emitted), Trace: e.Trace})
+			Post: e.post(inst, p), Em: e.emitted(inst, oc.Emitted), Trace: e.Trace, Res: e.res(inst, p)})
 	}
 	return oc
 }
@@ -437,7 +484,7 @@ func (e *Engine) StopParty(inst party.ID) Outcome {
 	stAfter := p.Status()
 	if e.Honest[inst] && e.Log {
 		e.Events = append(e.Events, Event{Ev: "Stop", I: e.Nm(inst), Ign: stBefore.St == stAfter.St && len(oc.Emitted) == 0,
-			Post: e.post(inst, p), Em: e.emitted(inst, oc.Emitted), Trace: e.Trace})
+			Post: e.post(inst, p), Em: e.emitted(inst, oc.Emitted), Trace: e.Trace, Res: "none"})
 	}
 	return oc
 }
@@ -460,4 +507,14 @@ func (e *Engine) HonestIDs() []party.ID {
 		}
 	}
 	return out
+}
+
+// StoredLabels renders which variant of every sender's round-r broadcast the instance stored.
+func (e *Engine) StoredLabels(inst party.ID, r int) string {
+	s := ""
+	sl := e.slot(inst, r, true)
+	for _, id := range e.IDs {
+		s += string(id) + "=" + sl[id] + " "
+	}
+	return s
 }
